@@ -231,7 +231,7 @@ c.setup = _main_setup
 c.variants = [("two-members", {}), ("any-members", {"payload_name": Str()})]
 c.requires("input_is_the_envelope", "FILE(input_envelope) == INPUT")
 c.requires("distinct_files", "input_envelope != output_envelope and (output_payload_file is None or (output_payload_file != output_envelope and output_payload_file != input_envelope)) "
-                             "and (payload_replace_path is None or (payload_replace_path != output_envelope and (output_payload_file is None or payload_replace_path != output_payload_file)))")
+                             "and (payload_replace_path is None or payload_replace_path != output_envelope)")  # the replacement MAY be the file the payload is dumped to (in-place swap)
 
 
 def _extract_checks_any(it, ctx):
@@ -311,7 +311,7 @@ c.param("omit_payload_regex", Opt(Str()))
 c.param("dependency_regex", Opt(Str()))
 c.variants = [("file-level", {})]
 c.setup = _wrapper_setup
-c.requires("output_is_another_file", "input_envelope != output_envelope")
+# (no distinctness precondition: stripping an envelope IN PLACE is ordinary use; the input is read before anything is written)
 
 
 def _wrapper_checks(it, ctx):
@@ -323,7 +323,8 @@ def _wrapper_checks(it, ctx):
         goals.append(("extracts_from_the_content_of_the_input_file", calls[0][2]["envelope_data"].e == ctx.eval("old(FILE(input_envelope))").e))
         goals += C00.reaches(calls[0], ctx, [("cache", "cache"), ("omit_payload_regex", "omit_payload_regex"), ("dependency_regex", "dependency_regex")])
         goals.append(("output_file_holds_the_stripped_envelope", ctx.eval("FILE(output_envelope)").e == calls[0][3].e))
-        goals.append(("input_file_untouched", ctx.eval("FILE(input_envelope)").e == ctx.eval("old(FILE(input_envelope))").e))
+        goals.append(("input_file_untouched_unless_stripped_in_place", z3.Implies(it.stubs.path_term(it, ctx.arg("input_envelope")) != it.stubs.path_term(it, ctx.arg("output_envelope")),
+                                                                                      ctx.eval("FILE(input_envelope)").e == ctx.eval("old(FILE(input_envelope))").e)))
     return goals
 
 
@@ -515,6 +516,18 @@ def bounded(ctx):
                     B.fail("extracted-payload-removed", case, "payload still in the envelope")
                 if replace is not None and after.get(name) != replace:
                     B.fail("replacement-embedded-under-the-same-name", case, f"envelope holds {after.get(name)!r}")
+                if with_file and replace is not None:
+                    # in-place swap: the replacement is read from the very file the extracted payload is written to
+                    swap = f"{d}/swap.bin"
+                    open(swap, "wb").write(replace)
+                    outp2 = f"{d}/o2.suit"
+                    try:
+                        pe.main(inp, outp2, name, swap, swap)
+                        a2 = cborx.decode_all(open(outp2, "rb").read()).value
+                        if a2.get(name) != replace or open(swap, "rb").read() != orig:
+                            B.fail("replacement-embedded-under-the-same-name", dict(case, in_place_swap=True), "replacement file == output payload file: the envelope must get the replacement and the file the extracted payload")
+                    except Exception as e:  # noqa: BLE001
+                        B.fail("extract-succeeds", dict(case, in_place_swap=True), f"{type(e).__name__}: {e}")
                 if with_file and (not os.path.exists(pf) or open(pf, "rb").read() != orig):
                     B.fail("extracted-payload-written-byte-identical", case, "output payload file missing or different" + ("" if os.path.exists(pf) else " (file not written: payload lost)"))
     # the same payload name at two places of the hierarchy with DIFFERENT bytes, both selected: one cache cannot hold both, so the only
